@@ -19,6 +19,7 @@ class Ctx:
         self.impl = None
         self.props = None
         self.samples = []
+        self.tags = {}
 
     def rng(self, stream):
         return random.Random('%s/%s/%s' % (self.seed, self.pid, stream))
@@ -30,46 +31,32 @@ class Ctx:
 def diff_cases(ctx, cases, timeout=900, model=True, label='main'):
     """Run implementation and model on case lines; returns list of (index, impl_out, model_out) that differ."""
     lines = [c[0] if isinstance(c, tuple) else c for c in cases]
-    impl_out, crashes = vlib.run_driver(vlib.impl_cmd(ctx.impl), lines, timeout=timeout)
-    bad = []
-    for dead, rc, err in crashes:
-        if dead is not None:
-            impl_out[dead] = 'CRASH rc=%d %s' % (rc, err.strip().replace('\n', ' | ')[:200])
+    impl_out = vlib.run_robust(vlib.impl_cmd(ctx.impl), lines, timeout=timeout, died='CRASH')
+    # tokens starting with '#' are observations (regime tags), not results: collect and strip
+    def clean(o):
+        if o and '#' in o:
+            toks = o.split(' ')
+            for t in toks:
+                if t.startswith('#'):
+                    ctx.tags[t] = ctx.tags.get(t, 0) + 1
+            return ' '.join(t for t in toks if not t.startswith('#'))
+        return o
+    impl_out = [clean(o) for o in impl_out]
     if model:
-        model_out, mcr = vlib.run_driver(vlib.model_cmd(), lines, timeout=timeout)
-        for dead, rc, err in mcr:
-            ctx.notes.append('model driver died (rc=%s) at case %r: %s' % (rc, lines[dead] if dead is not None else None, err[:200]))
-            if dead is not None:
-                model_out[dead] = 'MODEL-DIED'
+        model_out = vlib.run_robust(vlib.model_cmd(), lines, timeout=timeout, died='MODEL-DIED')
+        for i, o in enumerate(model_out):
+            if o.startswith('MODEL-DIED'):
+                ctx.notes.append('model driver died on case %r' % (lines[i][:200],))
     else:
         model_out = [None] * len(lines)
+    bad = []
     for i, ln in enumerate(lines):
         a, b = impl_out[i], model_out[i]
-        if a is None:
-            # not reached because an earlier case in the shard crashed: rerun individually later
-            a = 'NOT-RUN'
-        if model and a != b:
+        if model:
+            if a != b:
+                bad.append((i, a, b))
+        elif 'CRASH' in a or any(t.isupper() and len(t) > 3 and not all(ch in '0123456789ABCDEF-' for ch in t) for t in a.split()):
             bad.append((i, a, b))
-        elif not model and ('CRASH' in a or any(t.isupper() and len(t) > 3 and not all(ch in '0123456789ABCDEF-' for ch in t) for t in a.split())):
-            bad.append((i, a, b))
-    # cases skipped after a crash: rerun them one shard each to get a verdict
-    notrun = [i for (i, a, b) in bad if a == 'NOT-RUN']
-    if notrun:
-        sub = [lines[i] for i in notrun]
-        io, cr = vlib.run_driver(vlib.impl_cmd(ctx.impl), sub, timeout=timeout, nproc=len(sub) if len(sub) < 64 else 64)
-        for dead, rc, err in cr:
-            if dead is not None:
-                io[dead] = 'CRASH rc=%d' % rc
-        fix = dict(zip(notrun, io))
-        nb = []
-        for (i, a, b) in bad:
-            if a == 'NOT-RUN':
-                a2 = fix.get(i) or 'NOT-RUN'
-                if a2 != b:
-                    nb.append((i, a2, b))
-            else:
-                nb.append((i, a, b))
-        bad = nb
     return bad, impl_out, model_out
 
 
@@ -260,7 +247,7 @@ def run(pid, tier, seed, replay=None):
            'obligation_list': [{'name': o['name'], 'status': o['status'], 'axioms': o['axioms']} for o in obligations],
            'evaluations': len(lines), 'distinct_nontrivial': distinct,
            'rule': getattr(mod, 'RULE', 'generated correspondence cases; distinct case lines'),
-           'case_histogram': hist, 'samples': samples,
+           'case_histogram': hist, 'observed_tags': dict(sorted(ctx.tags.items(), key=lambda kv: -kv[1])[:60]), 'samples': samples,
            'traces_validated_against_impl': len(lines) - len(bad),
            'disagreements': len(bad), 'known_findings_hit': len(ctx.known_hits),
            'explanation': getattr(mod, 'EXPLANATION', ''), 'notes': ctx.notes[:20]}
